@@ -10,7 +10,7 @@ git -C /repo worktree add --detach "$wt" >/dev/null 2>&1 || { echo "cannot creat
 if ! git -C "$wt" apply $rev "$patch"; then echo "patch does not apply"; git -C /repo worktree remove --force "$wt"; exit 2; fi
 mkdir -p "$wt/.vfout"
 ( cd "$here" && VF_REPO="$wt" VF_OUT="$wt/.vfout" ./check "$pid" --tier "$tier" ) > "$wt/.vfout/log" 2>&1
-rc=$?
+rc=$?; cp "$wt/.vfout/log" /tmp/vf_mut_last_$pid.log
 grep -E "^VIOLATION|^KNOWN-FINDING|^  key=|^$pid:|MACHINERY" "$wt/.vfout/log" | head -20
 echo "exit=$rc"
 git -C /repo worktree remove --force "$wt" >/dev/null 2>&1
